@@ -24,7 +24,11 @@ RULE = ("operation histories of length 1..40 over 2..6 slots x 1..3 sub-automati
         "values in and outside [0,1], handleMidi with a handful of controllers on 3 channels (bound, unbound) and NRPN "
         "sequences 99/98/6/38 (complete, partial, interleaved); initial NRPN registers -1 or arbitrary.  Non-trivial = "
         "a learn request is served or a bound controller drives a slot or a message is emitted.")
-TRUSTED = ["harness/h_C19.cpp builds rtosc::Ports with run-time metadata, reaches the private NRPN registers with "
+TRUSTED = ["ORACLES of the log-scale theorems (C19_log_in_range, C19_log_monotone): libm's logf/expf are arbitrary "
+           "functions constrained only by exp_mono (expf monotone on finite arguments), log_mono (logf finite and "
+           "monotone on finite positive arguments) and roundtrip (expf(logf x) finite and within relative 1e-5 of x); the "
+           "'orc' stream samples these three hypotheses on the libm the harness is linked with on every run",
+           "harness/h_C19.cpp builds rtosc::Ports with run-time metadata, reaches the private NRPN registers with "
            "'#define private public', decodes backend messages with rtosc_argument*",
            "driver: text->float (atof), logf, expf are OCaml's float_of_string/log/exp rounded to single (oracles of the model)",
            "tools/props/C19.py reference machine (spec_check) written from the property text; float32 arithmetic "
@@ -62,7 +66,7 @@ PARAMS = [
 BAD = [("xa", "i", "0", "-", "-"), ("xb", "f", "-", "-", "-"), ("xc", "i", "0", "10", "x"), ("xd", "f", "0", "1", "n")]
 VALS = [0.0, 1.0, 0.5, 0.25, 0.75, 1 / 127.0, 64 / 127.0, 126 / 127.0, 0.1, 0.9, 0.499, 0.501, -0.5, 1.5, 2.0, -1.0,
         100.0, -100.0, 1e-6, 0.333333, 0.666667]
-GAINS = [100.0, 100.0, 50.0, 200.0, 0.0, -100.0, 1.0, 33.3, 150.0, -50.0, 1000.0, 3e38, -3e38, 1e30]
+GAINS = [100.0, 100.0, 50.0, 200.0, 0.0, -100.0, 1.0, 33.3, 150.0, -50.0, 1000.0, 3e38, -3e38, 1e30, float("inf"), 1e36]
 OFFS = [0.0, 0.0, 10.0, -10.0, 50.0, -50.0, 100.0, 25.5, -100.0, 3e38, -1e36]
 WILD = [float("inf"), float("-inf"), float("nan"), 1e38, -1e38, 3e38]
 CCS = [1, 7, 10, 74]
@@ -147,9 +151,47 @@ def gen_case(rng, dist):
         dist["with-" + ft] = dist.get("with-" + ft, 0) + 1
     return case
 
+def gen_orc(rng, dist):
+    """samples for the oracle hypotheses of the log-scale theorems (exp_mono, log_mono, roundtrip)"""
+    xs = sorted({bits_of(f32(math.exp(rng.uniform(-80, 80)))) for _ in range(24)} |
+                {bits_of(x) for x in (1e-30, 0.01, 0.1, 1.0, 2.0, 20.0, 100.0, 20000.0, 1e30)})
+    ys = sorted((rng.uniform(-100, 100) for _ in range(24)))
+    ys = sorted(set(f32(y) for y in ys) | {-104.0, -87.5, 0.0, 1.0, 88.5, 89.0})
+    dist["oracle-samples"] = dist.get("oracle-samples", 0) + 1
+    return "orc %s %s" % (",".join(str(b) for b in xs), ",".join(str(bits_of(y)) for y in ys))
+
 def gen(rng, tier, dist):
     n = 2500 if tier == "quick" else 100000
-    return [gen_case(rng, dist) for _ in range(n)]
+    return [gen_case(rng, dist) for _ in range(n)] + [gen_orc(rng, dist) for _ in range(n // 25)]
+
+EPS = 1e-5
+
+def orc_check(case, impl):
+    f = case.split(" ")
+    xs = [of_bits(int(b)) for b in f[1].split(",")]
+    ys = [of_bits(int(b)) for b in f[2].split(",")]
+    m = re.match(r"^L=(\S*) E=(\S*)$", impl)
+    if not m:
+        return "shape: oracle line %r" % impl[:200]
+    ls = [tuple(of_bits(int(t)) for t in p.split("/")) for p in m.group(1).split(";")]
+    es = [of_bits(int(t)) for t in m.group(2).split(";")]
+    if len(ls) != len(xs) or len(es) != len(ys):
+        return "shape: oracle line has the wrong number of values"
+    prev = None
+    for x, (l, e) in zip(xs, ls):
+        if not math.isfinite(l):
+            return "oracle-log_mono: logf(%r) = %r is not finite" % (x, l)
+        if prev is not None and l < prev:
+            return "oracle-log_mono: logf decreases at %r" % x
+        prev = l
+        if not math.isfinite(e) or abs(e - x) > EPS * x:
+            return "oracle-roundtrip: expf(logf(%r)) = %r" % (x, e)
+    prev = None
+    for y, e in zip(ys, es):
+        if e != e or (prev is not None and e < prev):
+            return "oracle-exp_mono: expf(%r) = %r after %r" % (y, e, prev)
+        prev = e
+    return None
 
 # ---------------------------------------------------------------------------
 # reference machine from the property text
@@ -322,8 +364,8 @@ def check_value(sb, v, ty, bits, seen_all):
         out = of_bits(bits)
         if out != out:
             return "in-range: NaN emitted"
-    slack = TOL * max(abs(lo), abs(hi), 1e-30) if sb.log else 0.0
-    if not (lo - slack <= out <= hi + slack):
+    # log scale: [min*(1-eps), max*(1+eps)] as in C19_log_in_range
+    if not ((lo * (1 - TOL) <= out <= hi * (1 + TOL)) if sb.log else (lo <= out <= hi)):
         return "in-range: value %r outside the declared [%r, %r]" % (out, lo, hi)
     if lo <= hi and math.isfinite(v):
         # monotone for positive gain (finite slot values: an infinite slot value times a zero
@@ -357,6 +399,8 @@ FIELD = re.compile(r"^(?:r=(\d+) )?e=(\S*) (q=-?\d+ s=\S+)(?: M=\S*)?$")
 def spec_check(case, impl):
     if impl.startswith("CRASH") or impl == "NOOUT":
         return "crash: " + impl[:300]
+    if case.startswith("orc "):
+        return orc_check(case, impl)
     exp, feat = predict(case)
     got = impl.split("|")
     if len(got) != len(exp):
@@ -391,6 +435,8 @@ def spec_check(case, impl):
     return None
 
 def nontrivial(case, impl):
+    if case.startswith("orc "):
+        return True
     feat = predict(case)[1]
     return bool(feat & {"learn-served", "bound-drive", "emission"})
 
@@ -409,6 +455,8 @@ def _nan(m):
 def canon(case, line):
     """NaN control points: sign/payload of a generated NaN is hardware-specific, compared as 'NaN';
     log-scale values depend on libm's logf/expf: masked (checked numerically by spec_check)"""
+    if case.startswith("orc "):
+        return "ORACLE"
     if "M=" in line:
         line = MAPDUMP.sub(_nan, line)
     if "/lg" not in line and ":l" not in case:
@@ -420,6 +468,8 @@ def classify(case, impl, failure):
     return None
 
 def minimise(case, impl, failure, run):
+    if case.startswith("orc "):
+        return case, impl, failure
     f = case.split(" ")
     ops = f[5].split(",")
     key = failure.split(":")[0]
